@@ -757,3 +757,24 @@ have step3 : ∀ n ∈ Finset.Ico (0:ℤ) N, y n * (if (n - m) % N = 0 then (((N
 rw [Finset.sum_congr rfl step3, Finset.sum_ite_eq' (Finset.Ico (0:ℤ) N) m]
 simp [Finset.mem_Ico, hm0, hmN]
 """)
+
+
+# ---- scalar products are invariant under an orthogonal matrix ----------------------------------------------------------------
+_RN = ["r%d%d" % (i, j) for i in range(3) for j in range(3)]
+
+
+def _col(a, b):
+    return " + ".join("r%d%d*r%d%d" % (k, a, k, b) for k in range(3))
+
+
+def _rot(i, v):
+    return "(" + " + ".join("r%d%d*%s%d" % (i, j, v, j) for j in range(3)) + ")"
+
+
+lemma("dot_rotation",
+      types=dict([(n, "real") for n in _RN] + [("a%d" % k, "real") for k in range(3)] + [("b%d" % k, "real") for k in range(3)]),
+      hyps=[("h%d%d" % (a, b), "%s == %d" % (_col(a, b), 1 if a == b else 0)) for a in range(3) for b in range(a, 3)],
+      concl=" + ".join("%s*%s" % (_rot(i, "a"), _rot(i, "b")) for i in range(3)) + " == a0*b0 + a1*b1 + a2*b2",
+      proof="""
+linear_combination a0*b0*h00 + a1*b1*h11 + a2*b2*h22 + (a0*b1 + a1*b0)*h01 + (a0*b2 + a2*b0)*h02 + (a1*b2 + a2*b1)*h12
+""")
